@@ -238,7 +238,18 @@ def m_c34(cl):
     return False
 
 
+def m_c09(cl):
+    """The last hashed log's stored hash is reproduced from no predecessor."""
+    for ln in reversed(cl):
+        st = _l1(ln)
+        if st and st.get("chain") and st["flags"]["hash"] and st["logs"]:
+            st["chain"][-1] = -1
+            return True
+    return False
+
+
 CONTROLS = {
+    "C09": ("Inv_C09_HashChain", m_c09),
     "C34": ("Inv_C34_BlockChain", m_c34),
     "C11": ("Step_C11_ImportFaithful", m_c11),
     "C12": ("Step_C12_ImportOutcome", m_c12),
